@@ -228,6 +228,17 @@ func readObjectDepth(ber []byte, offset int, depth int) (asn1Object, int, error)
 		}
 		var subObjects []asn1Object
 		for (offset < contentEnd) || indefinite {
+			if indefinite {
+				// look for the end-of-contents octets BEFORE reading a member: an
+				// indefinite-length value may have no members at all (24 80 00 00)
+				terminated, err := isIndefiniteTermination(ber, offset)
+				if err != nil {
+					return nil, 0, err
+				}
+				if terminated {
+					break
+				}
+			}
 			var subObj asn1Object
 			var err error
 			subObj, offset, err = readObjectDepth(ber, offset, depth+1)
@@ -241,17 +252,6 @@ func readObjectDepth(ber []byte, offset int, depth int) (asn1Object, int, error)
 				return nil, 0, errors.New("ber2der: BER object extends beyond its parent")
 			}
 			subObjects = append(subObjects, subObj)
-
-			if indefinite {
-				terminated, err := isIndefiniteTermination(ber, offset)
-				if err != nil {
-					return nil, 0, err
-				}
-
-				if terminated {
-					break
-				}
-			}
 		}
 		obj = asn1Structured{
 			tagBytes: ber[tagStart:tagEnd],
